@@ -88,6 +88,23 @@ void prop_c19(hz::Ctx &ctx) {
   std::vector<size_t> sizes; for (size_t s = 0; s <= 64; s++) sizes.push_back(s);
   for (int q = 1; q <= 4; q++) for (int d = -4; d <= 4; d++) sizes.push_back(4096 * q + d);
   for (size_t s : {100u, 1000u, 5000u, 9999u, 20000u}) sizes.push_back(s);
+  // files of a megabyte and more (few code lines, comment padding, code again at the very end), at and around page multiples
+  {
+    std::vector<size_t> big = {(1u << 20) - 1, 1u << 20, (1u << 20) + 1, (1u << 20) + 4096, 2u << 20, (2u << 20) + 4095, 3u << 19, 1000000u}; if (ctx.thorough()) { big.push_back(4u << 20); big.push_back((4u << 20) + 8192); big.push_back((1u << 20) + 8192); big.push_back(8u << 20); }
+    for (size_t size : big) for (int rep = 0; rep < (ctx.thorough() ? 6 : 2); rep++) for (int mode = 0; mode < 2; mode++) {
+      bool final_nl = (rep + mode) & 1, crlf = rep & 2; std::string nl = crlf ? "\r\n" : "\n";
+      C19Case c; std::string headt, tailt; for (int i = 0; i < 20; i++) headt += P.lines[r.below(P.lines.size())] + nl; for (int i = 0; i < 3; i++) tailt += P.lines[r.below(P.lines.size())] + (i < 2 || final_nl ? nl : "");
+      std::string mid; mid.reserve(size); while (headt.size() + mid.size() + tailt.size() + 82 < size) { mid += ";"; for (int q = 0; q < 78; q++) mid += (char)('a' + (q * 7 + mid.size()) % 26); mid += nl; } while (headt.size() + mid.size() + tailt.size() + nl.size() < size) mid += " "; if (headt.size() + mid.size() + tailt.size() < size) mid += nl; while (headt.size() + mid.size() + tailt.size() < size) mid += " ";
+      c.content = headt + mid + tailt; c.combo = (int)r.below(12); c.mode = mode; c.chunk = mode ? 16 : 0; c.start = 0;
+      if (c.content.size() != size) continue;
+      if (!ctx.take()) continue;
+      std::string id = "C19B|" + std::to_string(size) + "|" + std::to_string(rep) + "|" + std::to_string(mode) + "|" + std::to_string(ctx.seed); if (!ctx.begin(id, "file of " + std::to_string(size) + " bytes")) continue;
+      ctx.cls("part:large-files"); if (size % 4096 == 0) ctx.cls("size:page-multiple"); ctx.nontrivial(id);
+      FV v = check19(c);
+      if (ctx.want_sample()) ctx.put_sample("file of " + std::to_string(size) + " bytes (23 code lines, comment padding)" + (mode ? ", counting" : "") + " -> " + (v.ok ? "same as the string call" : v.detail));
+      if (!v.ok) { hz::Failure f = fail19(c, v); const char *root = getenv("VERIF_ROOT"); std::string rd = std::string(root ? root : "/verif") + "/replays"; mkdir(rd.c_str(), 0755); rd += "/bulk"; mkdir(rd.c_str(), 0755); std::string keep = rd + "/c19-large-" + std::to_string(size) + "-" + std::to_string(rep) + "-" + std::to_string(mode) + ".asm"; write_file(keep, c.content); f.caseid = "C19F|" + std::to_string(c.combo) + "|" + std::to_string(c.mode) + "|" + std::to_string(c.chunk) + "|" + keep; ctx.fail(f); }
+    }
+  }
   int reps = ctx.thorough() ? 48 : 12;
   for (size_t size : sizes) for (int rep = 0; rep < reps; rep++) for (int mode = 0; mode < 2; mode++) {
     bool failing = rep % 3 == 2, final_nl = rep & 1, crlf = (rep >> 1) & 1;
@@ -137,7 +154,9 @@ static FI run17(const Pool &P, const C17Case &c) {
   std::vector<uint8_t> ext(4096, 0xcc);
   alw.guard_code = 1; alw.salt = (long)(c.seed % 1000003); alw_reset(); alw.fail_at = c.fail_at; alw.fail_at2 = c.fail_at2;
   // growth scenarios also run with chunk fitting (sizes that do not divide the growth quantum) and as counting calls
-  static const int FIT[] = {0, 0, 13, 7, 17, 9, 100, 11}; int fit = (c.scenario == 2 || c.scenario == 6) ? FIT[c.seed % 8] : 0; bool counting_main = c.scenario == 2 && (c.seed % 5) == 3;
+  static const int FIT[] = {0, 0, 13, 7, 17, 9, 100, 11}; int fit = (c.scenario == 2 || c.scenario == 6) ? FIT[c.seed % 8] : 0; bool counting_main = (c.scenario == 2 || c.scenario == 6) && (c.seed % 4) == 3;
+  // counting calls with every kind of chunk size (below 2 the call counts nothing and assembles plainly)
+  static const int CC[] = {0, 16, 1, 4096}; const int cchunk = CC[(c.seed / 4) % 4]; const int cchunk4 = CC[c.seed % 4];
   auto api = [&](const char *name, const std::function<int()> &f, int &rc) -> bool { long before = alw.counter; alw.armed = 1; rc = f(); alw.armed = 0; bool hit = alw.failed_index > before && alw.failed_index <= alw.counter; if (hit) v.faulted = std::string(name) + " (" + alw_kind_name(alw.failed_kind) + " call #" + std::to_string(alw.failed_index) + ")"; v.trace += std::string(name) + "=" + std::to_string(rc) + (hit ? "[fault] " : " "); return hit; };
   assemblyline_t a = nullptr; int rc = 0; bool hit;
   // ---- create
@@ -156,11 +175,11 @@ static FI run17(const Pool &P, const C17Case &c) {
   switch (c.scenario) {
     case 0: case 1: break;
     case 2: if (fit) asm_set_chunk_size(a, fit);
-      hit = counting_main ? api("asm_assemble_string_counting_chunks(long)", [&] { std::vector<char> w(prog_long.begin(), prog_long.end()); w.push_back(0); int cc = 0; return asm_assemble_string_counting_chunks(a, w.data(), 16, &cc); }, rc)
+      hit = counting_main ? api("asm_assemble_string_counting_chunks(long)", [&] { std::vector<char> w(prog_long.begin(), prog_long.end()); w.push_back(0); int cc = 0; return asm_assemble_string_counting_chunks(a, w.data(), cchunk, &cc); }, rc)
                           : api(fit ? "asm_assemble_str(long, chunk fitting)" : "asm_assemble_str(long)", [&] { return asm_assemble_str(a, prog_long.c_str()); }, rc); if (hit && rc != EXIT_FAILURE) { intact(""); asm_destroy_instance(a); return bad("fault-ignored", "growing the buffer failed (" + v.faulted + ") but the call returned " + std::to_string(rc)); } if (!hit && rc != 0) { asm_destroy_instance(a); return bad("harness", "long program failed without fault"); } break;
     case 3: case 6: if (fit) asm_set_chunk_size(a, fit);
-      hit = api("asm_assemble_file", [&] { return asm_assemble_file(a, pth.data()); }, rc); if (hit && rc != EXIT_FAILURE) { asm_destroy_instance(a); return bad("fault-ignored", v.faulted + " failed but asm_assemble_file returned " + std::to_string(rc)); } if (!hit && rc != 0) { asm_destroy_instance(a); return bad("harness", "file program failed without fault"); } break;
-    case 4: hit = api("asm_assemble_file_counting_chunks", [&] { return asm_assemble_file_counting_chunks(a, pth.data(), 16, &cnt); }, rc); if (hit && rc != EXIT_FAILURE) { asm_destroy_instance(a); return bad("fault-ignored", v.faulted + " failed but the call returned " + std::to_string(rc)); } if (!hit && rc != 0) { asm_destroy_instance(a); return bad("harness", "file program failed without fault"); } break;
+      hit = counting_main ? api("asm_assemble_file_counting_chunks(long)", [&] { int cc = 0; return asm_assemble_file_counting_chunks(a, pth.data(), cchunk, &cc); }, rc) : api("asm_assemble_file", [&] { return asm_assemble_file(a, pth.data()); }, rc); if (hit && rc != EXIT_FAILURE) { asm_destroy_instance(a); return bad("fault-ignored", v.faulted + " failed but asm_assemble_file returned " + std::to_string(rc)); } if (!hit && rc != 0) { asm_destroy_instance(a); return bad("harness", "file program failed without fault"); } break;
+    case 4: hit = api("asm_assemble_file_counting_chunks", [&] { return asm_assemble_file_counting_chunks(a, pth.data(), cchunk4, &cnt); }, rc); if (hit && rc != EXIT_FAILURE) { asm_destroy_instance(a); return bad("fault-ignored", v.faulted + " failed but the call returned " + std::to_string(rc)); } if (!hit && rc != 0) { asm_destroy_instance(a); return bad("harness", "file program failed without fault"); } break;
     case 5: {
       hit = api("asm_create_bin_file", [&] { return asm_create_bin_file(a, outpath.c_str()); }, rc);
       std::string got; bool have = read_all(outpath, got); int off = asm_get_offset(a);
@@ -170,9 +189,9 @@ static FI run17(const Pool &P, const C17Case &c) {
       break; }
   }
   if (!intact("after the faulted call (" + v.faulted + ")")) { asm_destroy_instance(a); return v; }
-  if ((c.scenario == 2 || c.scenario == 6) && rc == EXIT_SUCCESS && !counting_main) {
-    // whatever happened underneath, a call that reports success must have produced the whole program
-    std::vector<uint8_t> big(1 << 20, 0); assemblyline_t e = asm_create_instance(big.data(), (int)big.size()); if (fit) asm_set_chunk_size(e, fit); asm_set_offset(e, off1); asm_assemble_str(e, prog_long.c_str()); int n = asm_get_offset(e); asm_destroy_instance(e);
+  if ((c.scenario == 2 || c.scenario == 6) && rc == EXIT_SUCCESS) {
+    // whatever happened underneath, a call that reports success must have produced the whole program (a counting call: the plain code)
+    std::vector<uint8_t> big(1 << 20, 0); assemblyline_t e = asm_create_instance(big.data(), (int)big.size()); if (fit && !counting_main) asm_set_chunk_size(e, fit); asm_set_offset(e, off1); asm_assemble_str(e, prog_long.c_str()); int n = asm_get_offset(e); asm_destroy_instance(e);
     if (asm_get_offset(a) != n || memcmp((uint8_t *)asm_get_code(a) + off1, big.data() + off1, n - off1)) { asm_destroy_instance(a); return bad("incomplete-success", "the call returned EXIT_SUCCESS (" + (v.faulted.empty() ? std::string("no fault") : v.faulted) + ") but its code differs from the caller-buffer result (offset " + std::to_string(asm_get_offset(a)) + " vs " + std::to_string(n) + ")"); }
   }
   // ---- the instance stays usable: more code can be appended (and grows the buffer again) without corrupting anything
@@ -234,6 +253,7 @@ void prop_c17(hz::Ctx &ctx) {
 int replay_fi(const std::string &caseid) {
   hz::Ctx ctx;
   if (!have_fi()) { printf("this replay needs the fault-injectable engine (alverif_fi)\n"); return 2; }
+  if (caseid.compare(0, 5, "C19F|") == 0) { auto f = split(caseid, '|'); if (f.size() != 5) return 2; C19Case c; c.combo = atoi(f[1].c_str()); c.mode = atoi(f[2].c_str()); c.chunk = atoi(f[3].c_str()); if (!read_all(f[4], c.content)) { printf("cannot read %s\n", f[4].c_str()); return 2; } FV v = check19(c); printf("file of %zu bytes\n", c.content.size()); if (v.ok) { printf("OK\n"); return 0; } printf("FAIL %s : %s\n", v.symptom.c_str(), v.detail.c_str()); return 1; }
   if (caseid.compare(0, 4, "C19|") == 0) { C19Case c; if (!parse19(caseid, c)) return 2; FV v = check19(c); printf("file of %zu bytes\n", c.content.size()); if (v.ok) { printf("OK\n"); return 0; } printf("FAIL %s : %s\n", v.symptom.c_str(), v.detail.c_str()); return 1; }
   if (caseid.compare(0, 4, "C17|") == 0) { C17Case c; if (!parse17(caseid, c)) return 2; ctx.seed = c.poolseed; FI v = run17(pool(ctx), c); printf("%s: %s\n", SCN[c.scenario], v.trace.c_str()); if (v.ok) { printf("OK\n"); return 0; } printf("FAIL %s : %s\n", v.symptom.c_str(), v.detail.c_str()); return 1; }
   return 2;
